@@ -256,6 +256,53 @@ Proof.
   - inversion Hb; subst b. rewrite equal_sym, (def_opaque i u Wi) in H. discriminate H.
 Qed.
 
+(* ---- further positions: arguments and returned values ------------------------------------------------ *)
+(* a value parameter accepts exactly the equivalent types: no numeric conversion, no Variable rule *)
+Theorem arg_char param arg assignable text_index : arg_ok false assignable text_index param arg = equal param arg.
+Proof. unfold arg_ok. cbn. apply equal_sym. Qed.
+
+(* a Referenz parameter needs an assignable argument of an EQUAL type *)
+Theorem ref_arg_needs_equal param arg assignable text_index :
+  arg_ok true assignable text_index param arg = true -> assignable = true /\ equal param arg = true.
+Proof.
+  unfold arg_ok. cbn [andb negb]. intros H. apply andb_true_iff in H. destruct H as [H E].
+  apply andb_true_iff in H. destruct H as [H _]. rewrite equal_sym. split; [|exact E].
+  destruct assignable; [reflexivity| discriminate H].
+Qed.
+
+Theorem ref_arg_char param arg assignable text_index :
+  arg_ok true assignable text_index param arg =
+  assignable && negb (equal param (Prim PBuchstabe) && text_index) && equal param arg.
+Proof. unfold arg_ok. rewrite (equal_sym arg param). destruct assignable; reflexivity. Qed.
+
+(* neither kind of parameter converts numeric types or accepts arbitrary values for Variable *)
+Example arg_no_numeric_conversion :
+  arg_ok false true false (Prim PZahl) (Prim PKommazahl) = false /\ arg_ok false true false Any (Prim PZahl) = false /\
+  assign_ok (Prim PZahl) (Prim PKommazahl) = true /\ assign_ok Any (Prim PZahl) = true.
+Proof. vm_compute. repeat split; reflexivity. Qed.
+
+(* a returned value: equivalent to the return type, or anything (but nothing) for Variable; no numeric rule *)
+Theorem return_char ret v :
+  return_ok true ret v = true <-> equal v Void = false /\ (equal ret v = true \/ equal ret Any = true).
+Proof.
+  unfold return_ok. rewrite is_void_equal.
+  destruct (equal v Void), (equal ret v), (equal ret Any); cbn; split; intros H; try discriminate H; try reflexivity; intuition congruence.
+Qed.
+
+(* a return without a value: exactly in functions returning nothing *)
+Theorem return_bare_char ret : return_ok false ret Void = equal ret Void.
+Proof. unfold return_ok. cbn [andb orb]. change (equal Void Void) with true. rewrite orb_true_r. destruct (equal ret Void); reflexivity. Qed.
+
+(* relation to the property's two positions: what a return accepts an assignment accepts too; the converse
+   fails exactly for the numeric-for-numeric conversion *)
+Theorem return_implies_assign ret v : return_ok true ret v = true -> assign_ok ret v = true.
+Proof.
+  intros H. apply return_char in H. destruct H as [Hv [H|H]]; apply assign_char; [left; exact H| right; right; split; assumption].
+Qed.
+Example return_no_numeric_conversion :
+  return_ok true (Prim PZahl) (Prim PKommazahl) = false /\ assign_ok (Prim PZahl) (Prim PKommazahl) = true /\ return_ok true Any (Prim PZahl) = true.
+Proof. vm_compute. repeat split; reflexivity. Qed.
+
 (* ---- non-vacuity of the hypotheses used above --------------------------------------------------- *)
 Definition ex_zahl := Prim PZahl.
 Definition ex_haus := Def 1 ex_zahl.                       (* Wir definieren eine Hausnummer als eine Zahl. *)
